@@ -22,7 +22,14 @@ func LoadMk(filename CurrPath, pkg *Package, options LoadOptions) *MkLines {
 	if lines == nil {
 		return nil
 	}
-	return NewMkLines(lines, pkg, nil)
+	mklines := NewMkLines(lines, pkg, nil)
+
+	// Some fixes are already applied while parsing the lines.
+	// Not every loaded file is checked and saved on its own, therefore
+	// save these fixes now, as they have already been logged. This also
+	// prevents the modified lines from staying in the file cache.
+	mklines.SaveAutofixChanges()
+	return mklines
 }
 
 func Load(filename CurrPath, options LoadOptions) *Lines {
